@@ -660,11 +660,20 @@ pub fn gen_game(t: &mut Tape, mate_bias: usize, max_plies: usize) -> Option<(Str
 
 /// Depth-limited searches of capture-storm positions (many queens) explode: cap their depth so that
 /// every generated search stays bounded. Time-limited searches are left alone.
+/// Material beyond that of the initial position, in units in which a queen counts two, a rook one and a
+/// minor piece a half: the measure of how far quiescence can explode (queens most, but ten rooks a side
+/// do it too).
+pub fn heavy_extra(pos: &Pos) -> usize {
+    let c = |k: Kind| pos.count(true, k) + pos.count(false, k);
+    2 * c(Kind::Q).saturating_sub(2) + c(Kind::R).saturating_sub(4) + (c(Kind::B) + c(Kind::N)).saturating_sub(8) / 2
+}
+
 pub fn tame(spec: &mut SearchSpec) {
     let Limit::Depth(d) = spec.limit else { return };
     let Some((pos, _)) = build(spec) else { return };
-    let queens = pos.count(true, Kind::Q) + pos.count(false, Kind::Q);
-    let cap = if queens >= 8 { 1 } else if queens >= 6 { 2 } else if queens >= 5 { 3 } else if queens >= 4 { 5 } else { 255 };
+    let x = heavy_extra(&pos);
+    // (four queens -> 5, five -> 3, six -> 2, eight -> 1, as measured for queens; rooks and minors pro rata)
+    let cap = if x >= 12 { 1 } else if x >= 8 { 2 } else if x >= 6 { 3 } else if x >= 4 { 5 } else { 255 };
     spec.limit = Limit::Depth(d.min(cap));
 }
 
@@ -687,7 +696,9 @@ pub fn gen_game_opts(t: &mut Tape, mate_bias: usize, max_plies: usize, allow_sto
     // Positions of this pool are searched to a fixed depth, also by the shipped binary under wall-clock
     // oracles: a one-ply search of nine queens a side was measured at 1.2e9 nodes (275 s), so the pool
     // holds at most twelve queens (heavier material is searched under time limits only: C14, C05, C09)
-    let (root, src) = if root.count(true, Kind::Q) + root.count(false, Kind::Q) > if src == "capture_storm" { 12 } else { 10 } {
+    // (callers that pass `allow_storm = false` send fixed depths of up to 5 without `tame`: they get at
+    // most two extra queens' worth of material)
+    let (root, src) = if heavy_extra(&root) > if src == "capture_storm" { 20 } else if allow_storm { 16 } else { 4 } {
         (gen::gen_root(t, Mix::Roots)?.pos, "root")
     } else {
         (root, src)
